@@ -72,7 +72,6 @@ const (
 // `amount` (big-endian bytes) of the contract's coins to `to`, `burn(amount)` destroys them.
 const c15SpenderHex = "0061736d01000000011b0660027f7f0060017f0060017f017f60000060027f7f0060017f00022a0203656e76176372656174655f7472616e736665725f70726f6d697365000003656e76046275726e00010305040203040505030100020608017f014180c0000b072c05066d656d6f7279020008616c6c6f636174650002066465706c6f7900030473656e640004046275726e00050a41042c01017f2300210120012001410c6a36020020012000360204200141003602082001410c6a20006a240020010b02000b08002000200110000b0600200010010b"
 
-
 var c15EmbeddedKinds = []string{kTimeLock, kMultisig, kOV, kOL, kROL}
 var c15WasmKinds = []string{kErc20, kInc, kSum, kSft, kCases, kSpender}
 
@@ -182,16 +181,16 @@ type C15Contract struct {
 	StartTime  uint64
 	OV         common.Address // OL / ROL: bound voting
 	Value      byte
-	Deadline   uint64 // ROL
-	Inc        common.Address // sum_func: bound inc contract
-	Holders    []*Actor       // erc20: who may hold tokens
-	Abandon    bool           // OV: never started (becomes terminable 30 days after its start time)
+	Deadline   uint64                 // ROL
+	Inc        common.Address         // sum_func: bound inc contract
+	Holders    []*Actor               // erc20: who may hold tokens
+	Abandon    bool                   // OV: never started (becomes terminable 30 days after its start time)
 	Tries      map[common.Address]int // OV: reveal attempts per voter
 	MultiTries int
-	FinTries   int      // OV: finish / prolong attempts that went nowhere
-	Lazy       bool     // OV: hardly anybody votes, so that the voting has to be prolonged
-	Proofs     int      // OV: proofs sent in the current round
-	PropTries  int      // Multisig
+	FinTries   int         // OV: finish / prolong attempts that went nowhere
+	Lazy       bool        // OV: hardly anybody votes, so that the voting has to be prolonged
+	Proofs     int         // OV: proofs sent in the current round
+	PropTries  int         // Multisig
 	Allow      [][2]*Actor // erc20: (holder, spender) pairs with an approval
 }
 
@@ -232,18 +231,18 @@ type C15Multi struct {
 }
 
 type C15Gen struct {
-	W         *World
-	R         *verifutil.Rng
-	Twin      *Replica
-	Contracts []*C15Contract
-	Step      int
-	Funded    []*Actor // actors with plenty of coins (identities and accounts)
-	Kinds     []string // enabled contract types
+	W          *World
+	R          *verifutil.Rng
+	Twin       *Replica
+	Contracts  []*C15Contract
+	Step       int
+	Funded     []*Actor // actors with plenty of coins (identities and accounts)
+	Kinds      []string // enabled contract types
 	HostilePct int
-	usedC     map[*C15Contract]bool
-	usedS     map[common.Address]bool
-	jumped    bool
-	plain     []*types.Transaction // non-contract txs of the current batch (funding of contract addresses)
+	usedC      map[*C15Contract]bool
+	usedS      map[common.Address]bool
+	jumped     bool
+	plain      []*types.Transaction // non-contract txs of the current batch (funding of contract addresses)
 }
 
 func NewC15Gen(w *World, twin *Replica, r *verifutil.Rng, kinds []string) *C15Gen {
